@@ -17,8 +17,8 @@ import (
 	"math"
 
 	"github.com/siglens/siglens/pkg/segment/query/iqr"
-	sutils "github.com/siglens/siglens/pkg/segment/utils"
 	"github.com/siglens/siglens/pkg/segment/structs"
+	sutils "github.com/siglens/siglens/pkg/segment/utils"
 	"github.com/siglens/siglens/pkg/utils"
 	zz "github.com/siglens/siglens/pkg/zzverif"
 )
